@@ -3,6 +3,7 @@ package main
 import (
 	"fmt"
 	"go/types"
+	"sort"
 	"strings"
 
 	"golang.org/x/tools/go/ssa"
@@ -171,7 +172,25 @@ func (e *Engine) verifyFunction(fn *ssa.Function, spec *FuncSpec) *Gen {
 				}
 			}
 		}
-		// ghost effects declared by the contract are obligations on the body too: ghost' == expr
+		// a body tagged ghost-pure (callers keep their ghost state across the call) must
+		// leave every ghost variable unchanged
+		if spec.Tags["ghost-pure"] {
+			var gk []string
+			for k := range r.st.ghosts {
+				gk = append(gk, k)
+			}
+			sort.Strings(gk)
+			var conj []Term
+			for _, k := range gk {
+				if e0, ok := a.entry.ghosts[k]; ok && e0.S != r.st.ghosts[k].S {
+					conj = append(conj, eq(r.st.ghosts[k], e0))
+				}
+			}
+			if len(conj) > 0 {
+				o := g.oblige(r.st, a.name, "post", "ghost-pure", and(conj...), spec.Pos)
+				o.Inputs = inputs
+			}
+		}
 		for _, cl := range spec.Ensures {
 			c2 := *ctx
 			c2.err = nil
